@@ -138,6 +138,27 @@ def rule_axes(chk: Check, model):
     chk.floor(rid, "batched interpolations", n, 1)
 
 
+def _leafwise(v):
+    """interp(x, xp, [l0, l1, ...])[i]  ->  interp(x, xp, l_i): the helper mapped over the flattened list of leaves and the i-th result
+    picked (tree_flatten / comprehension / tree_unflatten spelling of the tree_map)."""
+    m = {}
+    for y in T.walk(v):
+        if y[0] != "index":
+            continue
+        i = T.const_value(y[2])
+        if i is None or i != int(i):
+            continue
+        lists = []
+        for c in T.walk(y[1]):
+            if c[0] == "call" and T.call_name(c) in ("jax.numpy.interp", "numpy.interp") and len(c[2]) == 3:
+                for z in T.walk(c[2][2]):
+                    if z[0] in ("list", "tuple") and len(z[1]) == len(LEAVES) and z not in lists:
+                        lists.append(z)
+        if len(lists) == 1 and 0 <= int(i) < len(lists[0][1]):
+            m[y] = T.subst(y[1], {lists[0]: lists[0][1][int(i)]})
+    return T.subst(v, m) if m else v
+
+
 def run(chk: Check, model):
     rule_axes(chk, model)
     chk.rule("C11.knots", "the interpolation knots are the delayed arrival times ts_sent + min + alpha (max - min) (dummy entries: their own receive time), the same array "
@@ -177,6 +198,7 @@ def run(chk: Check, model):
             if v is None:
                 chk.add("C11.leaves", f"{mode}: leaf {k} present", False, f"the {mode} branch builds no `{k}` for the delayed InputState", loc)
                 continue
+            v = _leafwise(v)
             calls = [x for x in T.walk(v) if x[0] == "call" and T.call_name(x) in ("jax.numpy.interp", "numpy.interp")]
             if not calls:
                 if any(x[0] == "call" and T.call_name(x).endswith("dynamic_slice") for x in T.walk(v)) or v == S(f"input.{k}"):
@@ -253,6 +275,7 @@ def run(chk: Check, model):
             stops = [y for y in T.walk(x) if y[0] == "call" and T.call_name(y).endswith("stop_gradient")]
             if stops:
                 chk.add("C11.grad", f"{mode}: query times differentiable", False, f"query times {T.show(x)[:160]} pass through stop_gradient", loc)
+            x = _norm(x)  # (a stop_gradient is reported above; the forward value is read through it)
             qs = []
             for y in T.walk(x):
                 if y[0] == "call" and T.call_name(y) == "jax.lax.dynamic_slice" and len(y[2]) == 3 and y not in qs:
